@@ -10,7 +10,7 @@ The oracle (harness/oracles/c14.py) states C14 directly on the implementation; i
 failing input once a theorem or the correspondence has broken."""
 import itertools, json
 import common
-from common import prove, ensure_model_runner, run_oracle, run_impl, Err
+from common import prove, ensure_model_runner, run_oracle, run_impl, run_model, Err
 from corr import correspond, shrink, disagree_one
 from flow import conclude
 import gen_pil, gen_reader
@@ -147,6 +147,36 @@ def run(ctx):
                     text = rng.choice(cs)[1]
             reqs.append(("read_pil_cfg", [ctab, cnames, cfgs, prelude, text, None]))
         diffs += correspond(ctx, "configured-classes", reqs)
+        # 5. the hypothesis of C14_reader_builds on generated systems: the statements of every base system
+        #    (every notation: kernel strings with composite-domain names, strand notation) form a consistent system
+        #    (model: consistentb = True; the implementation side answers that read_pil returned a dictionary)
+        reqs = []
+        for k in range(150 if quick else 4000):
+            big = (k % 5 == 0)
+            psn, pco = (0.0, 0.0) if k % 3 == 0 else (0.3, 0.5)
+            S = (gen_pil.make_system(rng, n_dom=rng.randrange(3, 9), n_cplx=rng.randrange(3, 10), n_strands=rng.randrange(0, 5),
+                                     n_macro=rng.randrange(0, 5), n_rxn=rng.randrange(0, 8), sizes=(1, 14),
+                                     p_strand_notation=psn, p_composite=pco) if big
+                 else gen_pil.make_system(rng, n_cplx=rng.randrange(1, 6), p_strand_notation=psn, p_composite=pco))
+            text, _ = render_doc(S, rng, gen_pil.shuffled_order(S, rng), layout=(k % 4 != 0))
+            reqs.append(("reader_consistent", [text]))
+        diffs += correspond(ctx, "consistent-accepted", reqs)
+        # ... and on corrupted systems only the implication is claimed: consistent (model) => read (implementation)
+        reqs = []
+        for _ in range(30 if quick else 600):
+            S = gen_pil.make_system(rng)
+            reqs += [("reader_consistent", [text]) for kind, text in c16mod.corruptions(rng, S)]
+        mres, ires = run_model(reqs), run_impl(reqs)
+        bad = [(k, rq, a, b) for k, (rq, a, b) in enumerate(zip(reqs, mres, ires)) if a is True and b is not True]
+        ctx.cov["correspondence"]["consistent-implies-read(corrupted)"] = {
+            "cases": len(reqs), "disagreements": len(bad),
+            "outcomes": {"model-consistent": sum(1 for a in mres if a is True),
+                         "model-not-consistent": sum(1 for a in mres if a is False),
+                         "model-other": sum(1 for a in mres if a is not True and a is not False),
+                         "impl-read": sum(1 for b in ires if b is True),
+                         "impl-refused": sum(1 for b in ires if b is not True)}}
+        ctx.add_eval(len(reqs), 2)
+        diffs += bad
     ctx.cov["phase_s"]["correspond"] = round(_t.time() - t0 - ctx.cov["phase_s"]["prove"], 1)
     t1 = _t.time()
     # the property itself on the implementation (support for the witness search; run on every run)
@@ -206,14 +236,17 @@ def witness(f):
 
 PARTIAL = [
     "reader_builds_full: for every abstract consistent system rendered to token trees in any declaration-respecting order the "
-    "result dictionary equals the system field by field.  Proved per statement, in any good session: domains (and the whole "
-    "domains field of ANY well-shaped document, with the frame theorem), strands, kernel complexes with and without "
-    "composite-domain expansion (also phrased on kernel trees via C12), strand-notation complexes, macrostate members, "
-    "reaction type / filing / rate / units / members, concentration.  Not proved: the assembled statement over a whole "
-    "system (frame statements for the non-domain fields, and that a consistent system is never refused: name / canonical "
-    "form freshness in the registries, success of look-ups of declared names); the whole dictionary is compared with "
-    "gen_pil.expected on every generated system, on the implementation by the oracle and through the model by the "
-    "correspondence",
+    "result dictionary equals the system field by field.  PROVED (C14_consistent_system_never_refused, C14_reader_builds, "
+    "C14_result_keys_are_the_declared_names, C14_reader_builds_any_order) for systems of domains (lengths or sequences), strands, "
+    "complexes in kernel notation (with composite-domain names and their complements, with concentrations) and in strand "
+    "notation (`structure` / `complex`), macrostates, reactions of every type and lines that are returned as they are, read in a "
+    "fresh session with classes whose __init__ does not raise: never refused, every statement has built exactly its objects "
+    "(Built; for complexes the (sequence, structure) the statement denotes, rd_cplx), the keys of every dictionary are exactly "
+    "the declared names, every filed reaction belongs to a reaction statement, `other` is the list of the remaining lines; "
+    "consistency is a computation (consistentb) that the op reader_consistent evaluates to True on every generated system.  "
+    "NOT in the assembled statement: sessions that already hold objects, `ignore`, and the sorted `view` of the dictionary (the "
+    "fields are stated on the dictionary and the heap; the whole view is compared with gen_pil.expected on every generated "
+    "system, on the implementation by the oracle and through the model by the correspondence)",
     "grammar_shape_full: every line the PEG interpreter returns on the regenerated PIL grammar satisfies line_okb (the hypothesis "
     "of C14_reader_no_fault / C14_reader_classes / C14_failed_read_keeps_held); not proved: the model op answers BadShape for a "
     "parsed line that violates it, so every document of every correspondence run checks it",
